@@ -99,11 +99,14 @@ pub struct SynthCfg {
     pub logs: bool,
     pub not_found: bool,
     pub parse_errs: bool,
+    /// Rules (and features) without any scenario still get their Started / Finished bracket:
+    /// `runner::Basic` never does that, the ordering contract does not forbid it.
+    pub empty_brackets: bool,
 }
 
 impl Default for SynthCfg {
     fn default() -> Self {
-        SynthCfg { hooks_pct: 50, fail_pct: 35, skip_pct: 15, retry_pct: 45, logs: true, not_found: false, parse_errs: true }
+        SynthCfg { hooks_pct: 50, fail_pct: 35, skip_pct: 15, retry_pct: 45, logs: true, not_found: false, parse_errs: true, empty_brackets: false }
     }
 }
 
@@ -117,7 +120,36 @@ fn attempt_word(
     after: bool,
     tok: &mut u64,
 ) -> Vec<event::RetryableScenario<TW>> {
-    let re = Regex::new("^(.*)$").unwrap();
+    // capture locations as a definition's regex would produce them for the step's text: flat,
+    // nested (inner group ending before / with the outer one), optional and non-participating groups
+    thread_local! {
+        static POOL: Vec<Regex> = [
+            "^(.*)$",
+            r"^(\S+) (.*)$",
+            r"^((\S+) \S+)(.*)$",
+            r"^(\S+( \S+)?)(.*)$",
+            r"^(zzz)?(\S+) ((\S+) ?(.*))$",
+            r"^\S+ (\S+)",
+            r"^(((\S+)) )",
+        ]
+        .iter()
+        .map(|p| Regex::new(p).unwrap())
+        .collect();
+    }
+    let caps_for = |r: &mut Rng, text: &str| -> regex::CaptureLocations {
+        POOL.with(|pool| {
+            let first = r.below(pool.len());
+            for k in 0..pool.len() {
+                let re = &pool[(first + k) % pool.len()];
+                let mut locs = re.capture_locations();
+                if re.captures_read(&mut locs, text).is_some() {
+                    return locs;
+                }
+            }
+            // nothing matched (cannot happen with `^(.*)$` for single-line texts): unfilled locations
+            pool[0].capture_locations()
+        })
+    };
     let mut w: Vec<Scenario<TW>> = vec![Scenario::Started];
     let world = || Some(Arc::new(TW { id: 9000, counter: 3 }));
     let kinds = [PanicKind::String, PanicKind::Str, PanicKind::Custom, PanicKind::Int];
@@ -168,7 +200,7 @@ fn attempt_word(
                 };
                 let nf = matches!(err, event::StepError::NotFound);
                 w.push(mk(event::Step::Failed(
-                    (!nf).then(|| re.capture_locations()),
+                    (!nf).then(|| caps_for(r, &st.value)),
                     None,
                     if nf { None } else { world() },
                     err,
@@ -180,7 +212,7 @@ fn attempt_word(
                 w.push(mk(event::Step::Skipped));
                 break;
             }
-            w.push(mk(event::Step::Passed(re.capture_locations(), None)));
+            w.push(mk(event::Step::Passed(caps_for(r, &st.value), None)));
         }
         if steps.is_empty() && outcome == 1 && !after {
             // nothing can fail in an empty scenario without hooks: leave it passing
@@ -285,7 +317,7 @@ pub fn generate_with(
             plans.push(p);
         }
         for (gr, rs) in gf.rules.iter().zip(&f.rules) {
-            if gr.scenarios.is_empty() {
+            if gr.scenarios.is_empty() && !cfg.empty_brackets {
                 continue;
             }
             let ri = r_src.len();
@@ -298,7 +330,7 @@ pub fn generate_with(
         }
     }
     // features without any scenario produce no bracket
-    let f_used: Vec<bool> = (0..feats.len()).map(|fi| plans.iter().any(|p| p.f == fi)).collect();
+    let f_used: Vec<bool> = (0..feats.len()).map(|fi| cfg.empty_brackets || plans.iter().any(|p| p.f == fi)).collect();
 
     let mut items: Vec<Item> = Vec::new();
     let mut meta: Vec<Meta> = Vec::new();
